@@ -43,6 +43,19 @@ CLAIMED['C04'] = dict(
     technique="Lean 4 theorems (exact shape characterisation) + bridge + exhaustive class sequences + real-gpg differential oracle",
     ref='§7 C04')
 
+CLAIMED['C05'] = dict(
+    text=("Lean theorems over the model of verify_file's decision, for every list of status lines: signature data is returned iff "
+          "exit status 0, a GOODSIG line, well-formed VALIDSIG lines (the last one supplies the data), a TRUST_ line whose level is "
+          "marginal/fully/ultimate, and no EXPKEYSIG/REVKEYSIG line (C05_accept_iff); non-zero exit is always the verification "
+          "failure; acceptance is monotone over gpg's validity vocabulary (complete table); for every caller environment gpg is "
+          "started with the private GNUPGHOME (C05_isolated_home); --require-signed gate. Tie: Bridge.Pgp re-proves prefixes, the "
+          "trust tuple = gpg's real tokens, field indices, argv, env composition, 'every spawn of the isolated class goes through the "
+          "override' from the current source; exhaustive status sequences through the real _spawn_gpg logic; real gpg for key states, "
+          "owner-trust levels, byte mutations, user-GNUPGHOME contents, CLI -s/-P/-K."),
+    note=TB + "Facts about gpg (exit status / GOODSIG on changed bytes, owner-trust -> validity under trust-model direct, keyring untouched) are exercised with gpg 2.2.40, not proved.",
+    technique="Lean 4 theorems (iff characterisation, complete trust table) + source-extracted bridge + exhaustive status sequences + real gpg",
+    ref='§7 C05')
+
 PENDING = ['C01', 'C02', 'C03', 'C04', 'C05', 'C06', 'C07', 'C08', 'C10', 'C11', 'C12', 'C13', 'C14', 'C15', 'C16',
            'C17', 'C18', 'C19', 'C20']
 
